@@ -152,6 +152,6 @@ REQUIRES = {"children-not-in-index-order": _has_unsorted_children}
 
 SUBS = [
     Sub("programs", check, strategy=prog_strategy, nontrivial=nontrivial, classes=classes, n_quick=300, n_thorough=2000, sample_ok=lambda c: len(json.dumps(c)) < 3000),
-    Sub("raw", check, strategy=raw_strategy, nontrivial=nontrivial, classes=classes, n_quick=300, n_thorough=2000),
-    Sub("index-reuse", check, strategy=reuse_strategy, nontrivial=nontrivial, classes=classes, n_quick=250, n_thorough=1500),
+    Sub("raw", check, fuzz_runs=1000, strategy=raw_strategy, nontrivial=nontrivial, classes=classes, n_quick=300, n_thorough=2000),
+    Sub("index-reuse", check, fuzz_runs=1000, strategy=reuse_strategy, nontrivial=nontrivial, classes=classes, n_quick=250, n_thorough=1500),
 ]
